@@ -38,6 +38,7 @@ type IPClient struct {
 		cTxTime     ntp.Time64
 		cRxTime     ntp.Time64
 		sRxTime     ntp.Time64
+		pending     bool
 	}
 }
 
@@ -161,6 +162,16 @@ func (c *IPClient) measureClockOffsetIP(ctx context.Context, mtrcs *ipClientMetr
 	} else {
 		ntpreq.TransmitTime = ntp.Time64FromTime(cTxTime0)
 	}
+	if interleavedReq && c.prev.pending {
+		// No response was accepted for the previous request: an interleaved
+		// request would repeat that request's timestamps, and a delayed
+		// response to it could not be told from the response to this one.
+		interleavedReq = false
+		ntpreq.OriginTime = ntp.Time64{}
+		ntpreq.ReceiveTime = ntp.Time64{}
+		ntpreq.TransmitTime = ntp.Time64FromTime(cTxTime0)
+	}
+	c.prev.pending = true
 	ntp.EncodePacket(&buf, &ntpreq)
 
 	var requestID []byte
@@ -335,6 +346,7 @@ func (c *IPClient) measureClockOffsetIP(ctx context.Context, mtrcs *ipClientMetr
 			c.prev.cTxTime = ntp.Time64FromTime(cTxTime1)
 			c.prev.cRxTime = ntp.Time64FromTime(cRxTime)
 			c.prev.sRxTime = ntpresp.ReceiveTime
+			c.prev.pending = false
 		}
 
 		timestamp = cRxTime
